@@ -11,6 +11,8 @@ import (
 	"verif/engines/limits"
 	"verif/engines/mount"
 	"verif/engines/proto"
+	"verif/engines/proxy"
+	"verif/engines/regset"
 	"verif/engines/robust"
 	"verif/engines/route"
 	"verif/engines/stream"
@@ -36,6 +38,8 @@ var registry = map[string]entry{
 	"C07": {"transcode", "exploration", transcode.RunC07, transcode.Replay},
 	"C08": {"limits", "exploration", limits.RunC08, limits.Replay},
 	"C09": {"robust", "exploration", robust.RunC09, robust.Replay},
+	"C10": {"proxy", "fault_enumeration", proxy.RunC10, proxy.Replay},
+	"C11": {"regset", "exploration", regset.RunC11, regset.Replay},
 	"C12": {"stress", "exploration", stress.RunC12, nil},
 	"C13": {"stress", "exploration", stress.RunC13, nil},
 	"C14": {"proto", "exploration", proto.RunC14, proto.Replay},
